@@ -15,7 +15,7 @@ package fiber
 // refJoin(refJoin(p1, p2), path) directly on the application. refJoin is the documented meaning of a prefix
 // (prefix without its trailing slashes, followed by the path with a leading slash; an empty path is the prefix).
 //
-// Bound, FVC_TIER=quick (about 25 s, 24812 trees, 6.9M cases):
+// Bound, FVC_TIER=quick (about 50 s, 30428 trees, 11.8M cases):
 //   routes R = {Get("/"), Get("/x"), Get("/:id"), Use("/x", mw), Use(mw)}, prefixes P = {"/", "/a", "/a/", "/:p"}
 //   A depth 1: root = [<=1 route of R] ++ mount(p in P, sub) ++ [<=1 route of R], sub = any list of <= 2 routes of R,
 //              mounted by app.Use(p, sub); with <= 1 sibling also by app.Group("/").Use(p, sub), app.Group(p).Use(sub)
@@ -26,6 +26,13 @@ package fiber
 //   C depth 2: root = mount(p1, sub) alone or Use(mw) ++ mount(p1, sub) ++ Get("/x"); sub = <= 1 route of R with
 //              mount(p2, leaf) before or after it; leaf = any list of <= 2 routes of R
 //   D depth 2 beside a sibling mount: root = mount(p1, sub{mount(p2, leaf{<=1 route}) ++ [<=1 route]}) ++ mount(q, s{Get("/x") | Use(mw)})
+//   F mount after the first start ("<start>" = Handler() is obtained and one request is served, on the build and on the twin):
+//              F1 root = [<=1 route] ++ <start> ++ mount(p, sub) ++ [<=1 route], sub = any list of <= 2 routes of R (the
+//                 application had no sub-application at its first start);
+//              F2 root = mount(p1, s1) ++ <start> ++ mount(p2, s2), s1, s2 of <= 1 route (a second mount after the start);
+//              F3 root = mount(p1, sub{[<=1 route] ++ <start> ++ mount(p2, leaf)}), leaf of <= 1 route (a mount INTO a
+//                 mounted sub-application after the root was started); a sub-application that contains <start> is mounted
+//                 before its own items are processed, every other sub-application is complete when it is mounted
 //   every tree whose mounts precede the routes of their application is built twice: bottom-up (leaf mounted into
 //   sub, then sub into root) and top-down (sub mounted into root before leaf is mounted into sub and before any
 //   route is registered anywhere)
@@ -58,6 +65,12 @@ package fiber
 //                  registered path "/") is spliced as prefix + "/" and no longer covers the mount prefix itself
 //                  ("/a"), while Group("/a").Use(mw) registers "/a". Predicate: StrictRouting and a mounted application
 //                  whose joined mount prefix is not "/" has a path-less Use(mw).
+//   late-mount-once-spent  the two start-up steps (mount list completion, splice) are guarded by a sync.Once per
+//                  application and are spent by the first start at which the application has a sub-application: a
+//                  sub-application mounted afterwards (into the root or into one of its mounted applications) is never
+//                  spliced, its routes answer 404, while a Group registered after the start is served. (The first mount
+//                  after a start WITHOUT sub-applications is processed: part F1 has to agree.) Predicate: the tree has a
+//                  mount before <start> and a mount after it.
 
 import (
 	"fmt"
@@ -71,7 +84,7 @@ import (
 )
 
 type fvcC04Item struct {
-	kind   int // 0..4 a route of R; -1 a mount
+	kind   int // 0..4 a route of R; -1 a mount; -2 <start>: the root application is started here (part F)
 	prefix string
 	style  int // 0 app.Use(p, sub); 1 Group("/").Use(p, sub); 2 Group(p).Use(sub); 3 Group("/a").Use(p, sub)
 	sub    *fvcC04Tree
@@ -127,6 +140,10 @@ func fvcC04Register(r Router, kind int, label string) {
 func (t *fvcC04Tree) String() string {
 	var parts []string
 	for _, it := range t.items {
+		if it.kind == -2 {
+			parts = append(parts, "<start>")
+			continue
+		}
 		if it.kind >= 0 {
 			parts = append(parts, fvcC04RouteName(it.kind))
 			continue
@@ -139,16 +156,51 @@ func (t *fvcC04Tree) String() string {
 
 func (t *fvcC04Tree) hasMount() bool {
 	for _, it := range t.items {
-		if it.kind < 0 {
+		if it.kind == -1 {
 			return true
 		}
 	}
 	return false
 }
 
+// <start> occurs in the tree
+func (t *fvcC04Tree) hasStart() bool {
+	for _, it := range t.items {
+		if it.kind == -2 || (it.kind == -1 && it.sub.hasStart()) {
+			return true
+		}
+	}
+	return false
+}
+
+// mounts before / after <start> in the order in which the tree is built (depth first)
+func (t *fvcC04Tree) mountsAroundStart(started *bool, before, after *int) {
+	for _, it := range t.items {
+		switch it.kind {
+		case -2:
+			*started = true
+		case -1:
+			if *started {
+				*after++
+			} else {
+				*before++
+			}
+			it.sub.mountsAroundStart(started, before, after)
+		}
+	}
+}
+
+// the start-up steps were spent by the first start (the root had a sub-application) and a mount follows
+func (t *fvcC04Tree) lateMountOnceSpent() bool {
+	var started bool
+	var before, after int
+	t.mountsAroundStart(&started, &before, &after)
+	return started && before > 0 && after > 0
+}
+
 func (t *fvcC04Tree) paramPrefix() bool {
 	for _, it := range t.items {
-		if it.kind < 0 && (strings.Contains(it.prefix, ":") || it.sub.paramPrefix()) {
+		if it.kind == -1 && (strings.Contains(it.prefix, ":") || it.sub.paramPrefix()) {
 			return true
 		}
 	}
@@ -159,6 +211,9 @@ func (t *fvcC04Tree) paramPrefix() bool {
 func (t *fvcC04Tree) mountsFirst() bool {
 	seenRoute := false
 	for _, it := range t.items {
+		if it.kind == -2 {
+			return false
+		}
 		if it.kind >= 0 {
 			seenRoute = true
 		} else if seenRoute || !it.sub.mountsFirst() {
@@ -181,7 +236,7 @@ func fvcC04Norm(p string) string {
 // joined prefixes of all applications mounted below t (relative to t), with "has mounts itself"
 func (t *fvcC04Tree) keys(out map[string][]bool, base string) {
 	for _, it := range t.items {
-		if it.kind >= 0 {
+		if it.kind != -1 {
 			continue
 		}
 		var rel string
@@ -210,7 +265,7 @@ func (t *fvcC04Tree) strictBareUse(base string, mounted bool) bool {
 		if it.kind == 4 && mounted && base != "/" {
 			return true
 		}
-		if it.kind >= 0 {
+		if it.kind != -1 {
 			continue
 		}
 		rel := it.prefix
@@ -237,7 +292,7 @@ func (t *fvcC04Tree) rootWildcard(base string, mounted bool) bool {
 		if (it.kind == 5 || it.kind == 6) && mounted && base == "/" {
 			return true
 		}
-		if it.kind >= 0 {
+		if it.kind != -1 {
 			continue
 		}
 		rel := it.prefix
@@ -271,7 +326,7 @@ func (t *fvcC04Tree) keyCollision() bool {
 		}
 	}
 	for _, it := range t.items {
-		if it.kind < 0 && it.sub.keyCollision() {
+		if it.kind == -1 && it.sub.keyCollision() {
 			return true
 		}
 	}
@@ -298,6 +353,33 @@ func fvcC04Build(t *fvcC04Tree, cfg Config, label string) *App {
 		if it.kind < 0 {
 			fvcC04Mount(app, it, fvcC04Build(it.sub, cfg, fmt.Sprintf("%s%d.", label, i)))
 		} else {
+			fvcC04Register(app, it.kind, fmt.Sprintf("%s%d", label, i))
+		}
+	}
+	return app
+}
+
+// <start>: the first start of the root application under construction (startupProcess through Handler(), one request).
+var fvcC04StartRoot *App
+
+func fvcC04Start() {
+	fvcC04Observe(fvcC04StartRoot.Handler(), MethodGet, "/", false)
+}
+
+// build(T) for trees with <start> (part F): items in order; a sub-application that contains <start> is mounted
+// first and filled afterwards (it has to be mounted when the root is started), every other one is complete when mounted.
+func fvcC04BuildLate(app *App, t *fvcC04Tree, cfg Config, label string) *App {
+	for i, it := range t.items {
+		switch {
+		case it.kind == -2:
+			fvcC04Start()
+		case it.kind == -1 && it.sub.hasStart():
+			sub := New(cfg)
+			fvcC04Mount(app, it, sub)
+			fvcC04BuildLate(sub, it.sub, cfg, fmt.Sprintf("%s%d.", label, i))
+		case it.kind == -1:
+			fvcC04Mount(app, it, fvcC04Build(it.sub, cfg, fmt.Sprintf("%s%d.", label, i)))
+		default:
 			fvcC04Register(app, it.kind, fmt.Sprintf("%s%d", label, i))
 		}
 	}
@@ -336,6 +418,10 @@ func fvcC04RoutesAll(t *fvcC04Tree, label string) {
 // of the mount.
 func fvcC04Twin(r Router, t *fvcC04Tree, label string) {
 	for i, it := range t.items {
+		if it.kind == -2 {
+			fvcC04Start()
+			continue
+		}
 		if it.kind < 0 {
 			g := r
 			switch it.style {
@@ -488,6 +574,20 @@ func (s *fvcC04Stats) checkTree(t *testing.T, tree *fvcC04Tree, cfg Config, cfgN
 		known = "strict-bare-use"
 	}
 	s.trees++
+	if tree.hasStart() {
+		if known == "" && tree.lateMountOnceSpent() {
+			known = "late-mount-once-spent"
+		}
+		twin := New(cfg)
+		fvcC04StartRoot = twin
+		fvcC04Twin(twin, tree, "")
+		s.compare(t, func() string { return cfgName + "late: " + tree.String() }, known, func() *App {
+			app := New(cfg)
+			fvcC04StartRoot = app
+			return fvcC04BuildLate(app, tree, cfg, "")
+		}, twin)
+		return
+	}
 	twin := New(cfg)
 	fvcC04Twin(twin, tree, "")
 	s.compare(t, func() string { return cfgName + "bottom-up: " + tree.String() }, known, func() *App { return fvcC04Build(tree, cfg, "") }, twin)
@@ -592,6 +692,36 @@ func TestFVCBoundedC04MountEquiv(t *testing.T) {
 								s.checkTree(t, fvcC04Cat(fvcC04M(p1, 0, sub), fvcC04M(q, 0, fvcC04Cat(other))), cfg, cfgNames[ci])
 							}
 						}
+					}
+				}
+			}
+		}
+		// ---- F: mount after the first start ----
+		start := []fvcC04Item{{kind: -2}}
+		for _, sub := range fvcC04Lists(2) { // F1: no sub-application at the first start
+			for _, p := range prefixes {
+				for _, pre := range opt {
+					for _, post := range opt {
+						s.checkTree(t, fvcC04Cat(pre, start, fvcC04M(p, 0, fvcC04Cat(sub)), post), cfg, cfgNames[ci])
+					}
+				}
+			}
+		}
+		for _, s1 := range opt { // F2: a second mount after the start
+			for _, s2 := range opt {
+				for _, p := range prefixes {
+					for _, q := range prefixes {
+						s.checkTree(t, fvcC04Cat(fvcC04M(p, 0, fvcC04Cat(s1)), start, fvcC04M(q, 0, fvcC04Cat(s2))), cfg, cfgNames[ci])
+					}
+				}
+			}
+		}
+		for _, leaf := range opt { // F3: a mount into a mounted sub-application after the root was started
+			for _, subRoute := range opt {
+				for _, p1 := range prefixes {
+					for _, p2 := range prefixes {
+						sub := fvcC04Cat(subRoute, start, fvcC04M(p2, 0, fvcC04Cat(leaf)))
+						s.checkTree(t, fvcC04Cat(fvcC04M(p1, 0, sub)), cfg, cfgNames[ci])
 					}
 				}
 			}
